@@ -351,6 +351,53 @@ def bind_pattern(pat, base, env):
             bind_pattern(q, base, env)
 
 
+def full_env(body, inline_lets=True):
+    """lid -> canonical name for every local of a body: parameters by position (`self`, $1, $2 ..), pattern bindings by the
+    place they are bound to (`self.value_type`, `$1.element_type`, for a non-place scrutinee `{summary}.field`), and let-bound
+    locals by the summary of their initialiser in braces (`{self.value_type.is_signed()}`), so that tables extracted with
+    summarize_bool do not depend on the names the source happens to use."""
+    env = canon_params(body)
+    hir = body.get("hir")
+
+    def base_of(e):
+        c = canon_of(e, env)
+        if c:
+            return c
+        return "{%s}" % summarize_bool(e, env)
+    for n in walk(hir):
+        k = n.get("k")
+        if k == "Match":
+            sc = unwrap_trivial(n["scrut"])
+            if sc.get("k") == "Tup":
+                # `match (a, b) { (X { f }, Y { g }) => ..`: bind position by position to the elements
+                elems = [base_of(e) for e in sc.get("a", [])]
+                for a in n["arms"]:
+                    for alt in pat_alts(a["pat"]):
+                        q = strip_ref(alt)
+                        if q.get("k") == "Tuple" and len(q.get("pats", [])) == len(elems):
+                            for sub, eb in zip(q["pats"], elems):
+                                bind_pattern(sub, eb, env)
+                        else:
+                            bind_pattern(alt, "(%s)" % ",".join(elems), env)
+                continue
+            base = base_of(n["scrut"])
+            for a in n["arms"]:
+                for alt in pat_alts(a["pat"]):
+                    bind_pattern(alt, base, env)
+        elif k == "Closure":
+            for i, q in enumerate(n.get("params", []) or []):
+                bind_pattern(q, "$c%d" % (i + 1), env)
+        elif k in ("Let", "LetExpr") and isinstance(n.get("init"), dict):
+            pat = strip_ref(n["pat"])
+            if pat.get("k") == "Bind" and "sub" not in pat:
+                if inline_lets:
+                    c = canon_of(n["init"], env)
+                    env[pat["lid"]] = c if c else "{%s}" % summarize_bool(n["init"], env)
+            else:
+                bind_pattern(pat, base_of(n["init"]), env)
+    return env
+
+
 def summarize_bool(node, env=None):
     """Compact, line-free summary of a boolean-valued expression.  With env (lid -> canonical name, see canon_params /
     bind_pattern) locals are printed by what they denote instead of by their source name."""
@@ -387,6 +434,13 @@ def summarize_bool(node, env=None):
         return "%s.%s" % (summarize_bool(n["e"], env), n["name"])
     if k == "Block":
         return "{..}"
+    if k == "Tup":
+        return "(%s)" % ",".join(summarize_bool(x, env) for x in n.get("a", []))
+    if k == "Match":
+        sc = unwrap_trivial(n["scrut"])
+        if "Try" in str(n.get("msrc")) and sc.get("k") == "Call" and sc.get("a"):
+            return "%s?" % summarize_bool(sc["a"][0], env)        # `e?`
+        return "match(%s)" % summarize_bool(sc, env)
     return k or "?"
 
 
